@@ -110,6 +110,8 @@ def rtsafe_(f, x0, bracket, settings):
 
     F, DF = f_and_fprime(x0)
     functionCalls += 1
+    # an exact root needs no step (and a Newton step from it is 0/0 if DF is zero as well)
+    converged = converged | (F == 0.0)
 
     def cond(carry):
         root, dx, dxOld, F, DF, xl, xh, converged, i = carry
@@ -135,7 +137,7 @@ def rtsafe_(f, x0, bracket, settings):
                              lambda rt, lo, hi: (lo, rt),
                              root, xl, xh)
         i += 1
-        converged = converged | (np.abs(dx) < x_tol) | (np.abs(F) < r_tol)
+        converged = converged | (np.abs(dx) < x_tol) | (np.abs(F) < r_tol) | (F == 0.0)
         return root, dx, dxOld, F, DF, xl, xh, converged, i
 
     x, dx, _, F, _, _, _, converged, iters = jax.lax.while_loop(cond,
